@@ -48,6 +48,19 @@ def judgeHCcore (level : Nat) (hist block log : ByteArray) (ret : Int) (out : By
   let o : Oracle := { best := fun ip => (best.get? ip).getD ⟨0, 0⟩,
                       wider := fun s l g => (wider.get? (s, l, g)).getD (s, ⟨0, 0⟩) }
   if !fails.isEmpty then return (fails, [])
+  -- the certificate of EVERY level (theorem `HC.chained_verified_sequences_decode`): the encoded sequences start one after the other from the start of the
+  -- block, each match is byte-verified inside history ++ block, and the real block is their serialisation followed by the remaining literals
+  let eff := if level < 1 then 9 else if level > 12 then 12 else level
+  if ret > 0 then
+    match HC.chainB H real with
+    | none => return ([("model_hc_certificate_differs", s!"level {level} n={n}: the encoded sequences do not start one after the other")], [])
+    | some a' =>
+      if !real.all (fun e => e.anchor ≤ e.ip && 4 ≤ e.len && vmatch data e.ip e.len e.off) then
+        return ([("hc_emitted_match_not_verified", s!"level {level} n={n} history={H}: an encoded sequence is not a byte-verified match of length >= 4 inside the window")], [])
+      let cert := LZ4V.Spec.Block.serialize (real.map (HC.toSeq data.toList)) (data.toList.drop a')
+      if cert != out.toList then return ([("model_hc_certificate_differs", s!"level {level} n={n}: the real block ({out.size} bytes) is not the serialisation of its logged sequences ({cert.length} bytes)")], [])
+  if eff < 3 || eff > 9 then
+    return ([], [s!"hc.level.{eff}", "hc.certificate_only", if H == 0 then "hc.no_history" else "hc.with_history"])
   let mres := HC.compressH o hist.toList block.toList (2 * n + 16)
   let mrun := if n < 13 then [] else (HC.run o (H + n - 12) (2 * n + 16) (.main H H)).2
   if mrun.length != real.length || !(List.zip mrun real).all (fun (x, y) => x.anchor == y.anchor && x.ip == y.ip && x.len == y.len && x.off == y.off) then
